@@ -296,6 +296,40 @@ def check_rule(verdict, st, o, r, rng, years, idx, tier, do_local):
                     verdict.violation({"kind": "tz.gettz(s) does not behave like tz.tzstr(s)",
                                        "input": {"s": s, "utc": u, "zone_kind": "gettz", "rule": r},
                                        "impl": b, "tzstr_impl": a}, concrete=in_guard)
+    # ---- the deprecated comma format and the short form of the same rule build the same zone
+    #      (theorems C08_deprecated_form_same_zone / C08_short_form_same_zone, here on the implementation)
+    dsx = r["dst"]
+    if dsx is not None and idx % 2 == 0 and not po:
+        import warnings
+        alts = []
+        (sd_, ts_), (ed_, te_) = dsx["start"], dsx["end"]
+        head = canon.split(",")[0]
+        if sd_[0] == 'M' and ed_[0] == 'M':
+            def dep(d, t):
+                return "%d,%s,%d,%d" % (d[1], "-1" if d[2] == 5 else str(d[2]), d[3], t)
+            alts.append(("deprecated", head + "," + dep(sd_, ts_) + "," + dep(ed_, te_)))
+        if r["off"] % 3600 == 0 and dsx["off"] == r["off"] + 3600 and ts_ == 7200 and te_ == 7200:
+            v = -r["off"] // 3600
+            alts.append(("short", r["name"] + ("-%d" % -v if v < 0 else "%d" % v) + dsx["name"] + "," +
+                         P.date_text(sd_) + "," + P.date_text(ed_)))
+        for kind, s2 in alts:
+            with warnings.catch_warnings():
+                warnings.simplefilter("ignore")
+                z2, st2 = build_tzstr(s2, po)
+            st.bump("alt_form_" + kind)
+            st.evals += 1
+            same = z2 is not None and zone_header(z2) == zone_header(z)
+            if same and z.hasdst:
+                try:
+                    same = all(z2.transitions(y) == z.transitions(y) for y in (2023, 2024))
+                except Exception:
+                    same = True          # month 13 etc. raise for both alike; compared elsewhere
+            if not same:
+                verdict.violation({"kind": "the %s form of the rule does not build the zone of the canonical "
+                                           "string" % kind,
+                                   "input": {"s": s2, "canonical": canon, "rule": r, "zone_kind": "tzstr"},
+                                   "impl": st2 if z2 is None else zone_header(z2), "canonical_impl": zone_header(z)},
+                                  concrete=guards["wf"])
     # ---- tzrange from the equivalent arguments
     from dateutil import tz
     a = P.tzrange_args(r, rng)
@@ -617,7 +651,7 @@ def main():
         o = C.Oracle(AREA)
         rng = C.rng("C08")
         years = YEARS_Q if tier == "quick" else YEARS_T
-        n_rules = 130 if tier == "quick" else 450
+        n_rules = 110 if tier == "quick" else 450
         # ---- regression corpus first
         cpath = os.path.join(C.VERIF, "corpus", "regressions", "C08.jsonl")
         corpus = []
@@ -632,7 +666,7 @@ def main():
         t_stream = time.time()
         for k, r in enumerate(rules):
             check_rule(verdict, st, o, r, rng, years, k, tier, do_local=(k % 3 == 0))
-            if tier == "quick" and time.time() - t_stream > 70:
+            if tier == "quick" and time.time() - t_stream > 50:
                 st.bump("rule_stream_cut_by_budget_at", k)
                 break
         # ---- tzrange constructor defaults (documented: first Sunday of April 2:00 / last Sunday of
